@@ -1139,16 +1139,22 @@ impl Translator {
 
                 let (_, captures, _locals) =
                     self.calculate_args_captures_locals(&overload_ty, args, body, mono);
+                // The types of the outer variables the lambda uses tell its body how the type
+                // parameters of the enclosing function are instantiated. That must include the
+                // variables whose type is instantiated with void, which take no capture slot:
+                // collect them as if nothing was instantiated yet.
+                let (_, typed_captures, _) =
+                    self.calculate_args_captures_locals(&None, args, body, &MonomorphEnv::empty());
 
                 let desc = FuncDesc {
                     kind: FuncKind::AnonymousFunc {
                         lambda: expr.clone(),
-                        capture_types: captures
+                        capture_types: typed_captures
                             .iter()
                             .cloned()
                             .map(|capture| self.statics.solution_of_node(capture).unwrap())
                             .collect(),
-                        capture_types_concrete: captures
+                        capture_types_concrete: typed_captures
                             .iter()
                             .cloned()
                             .map(|capture| self.get_ty(mono, capture).unwrap())
